@@ -381,6 +381,8 @@ def c05_rf10(run):
     rf_abi.rf10j(run)
     rf_abi.rf65(run)
     run.min_instances('RF65', 2)
+    rf_flow.rf32(run)
+    rf_templates.rf74(run)
     rf_dispatch.rf7e(run, units=('gen',), expect=1)
     rf_dispatch.rf7f(run)
     run.min_instances('RF7f', 30)
